@@ -451,11 +451,8 @@ func (c *SpecCtx) eqSV(a, b SV) string {
 		fail("spec: nil compared with sort %s", a.Sort)
 	}
 	if a.Content != nil && b.Content != nil {
-		e := c.enc()
-		k := e.fresh("k!c")
-		return and(eq(a.Content.dom, b.Content.dom),
-			fmt.Sprintf("(forall ((%s %s)) (! (=> (select %s %s) (= (select %s %s) (select %s %s))) :pattern ((select %s %s)) :pattern ((select %s %s))))",
-				k, a.Content.ks, a.Content.dom, k, a.Content.val, k, b.Content.val, k, a.Content.val, k, b.Content.val, k))
+		// canonical map representation: contents are equal iff domain and value arrays are equal
+		return and(eq(a.Content.dom, b.Content.dom), eq(a.Content.val, b.Content.val))
 	}
 	if a.Seq != nil && b.Seq != nil {
 		e := c.enc()
@@ -559,7 +556,8 @@ func (c *SpecCtx) quant(n *Node) SV {
 			}
 			pats = append(pats, ":pattern ("+strings.Join(ts, " ")+")")
 		}
-		return boolSV(fmt.Sprintf("(%s (%s) (! %s %s))", q, strings.Join(binders, " "), body.T, strings.Join(pats, " ")))
+		e.uniq++
+		return boolSV(fmt.Sprintf("(%s (%s) (! %s %s :qid spec_%s_%d))", q, strings.Join(binders, " "), body.T, strings.Join(pats, " "), sanitize(n.Vars[0].Name), e.uniq))
 	}
 	return boolSV(fmt.Sprintf("(%s (%s) %s)", q, strings.Join(binders, " "), body.T))
 }
@@ -599,6 +597,16 @@ func (c *SpecCtx) call(n *Node) SV {
 		}
 		md, _ := e.mapHeaps(mt)
 		return SV{T: sel(c.cur.H(md), x.T), Sort: "(Array " + e.sortOf(mt.Key()) + " Bool)"}
+	case "emptyset":
+		t := c.resolveType(n.Args[0].Name)
+		return SV{T: fmt.Sprintf("((as const (Array %s Bool)) false)", e.sortOf(t)), Sort: "(Array " + e.sortOf(t) + " Bool)"}
+	case "emptyvals":
+		t := c.resolveType(n.Args[0].Name)
+		mt, ok := t.Underlying().(*types.Map)
+		if !ok {
+			fail("spec: emptyvals needs a map type")
+		}
+		return SV{T: e.constArray(e.sortOf(mt.Key()), e.sortOf(mt.Elem()), e.zero(mt.Elem())), Sort: "(Array " + e.sortOf(mt.Key()) + " " + e.sortOf(mt.Elem()) + ")"}
 	case "with":
 		x, k := c.eval(n.Args[0]), c.eval(n.Args[1])
 		return SV{T: sto(x.T, k.T, "true"), Sort: x.Sort}
@@ -690,7 +698,11 @@ func (c *SpecCtx) call(n *Node) SV {
 			fail("spec: bagv of non-map")
 		}
 		md, mv := e.mapHeaps(mt)
-		return SV{T: app("bagv$"+sanitize(e.sortOf(mt.Key()))+"$"+sanitize(e.sortOf(mt.Elem())), sel(c.cur.H(md), x.T), sel(c.cur.H(mv), x.T)), Sort: "(Array " + e.sortOf(mt.Elem()) + " Int)"}
+		if e.sortOf(mt.Key()) != "Str" || e.sortOf(mt.Elem()) != "Str" {
+			fail("spec: bagv is defined for map[string]string only")
+		}
+		e.needSeq("Str")
+		return SV{T: app("bagvS", sel(c.cur.H(md), x.T), sel(c.cur.H(mv), x.T)), Sort: "(Array Str Int)"}
 	case "held":
 		// held(mu): ghost lock state of a sync.Mutex location
 		x := c.eval1LV(n.Args[0])
@@ -716,6 +728,34 @@ func (c *SpecCtx) call(n *Node) SV {
 			return SV{T: c.cur.H(md), Sort: e.heapSort[md]}
 		}
 		return SV{T: c.cur.H(mv), Sort: e.heapSort[mv]}
+	case "mapsUnchanged":
+		// every map of the given type that existed at function entry has its entry contents
+		t := c.resolveType(n.Args[0].Name)
+		mt, ok := t.Underlying().(*types.Map)
+		if !ok {
+			fail("spec: mapsUnchanged needs a map type")
+		}
+		md, mv := e.mapHeaps(mt)
+		r := e.fresh("r!mu")
+		entry := c.f.entry
+		if entry == nil {
+			entry = c.old
+		}
+		return boolSV(fmt.Sprintf("(forall ((%s Int)) (! (=> (< %s %s) (and (= (select %s %s) (select %s %s)) (= (select %s %s) (select %s %s)))) :pattern ((select %s %s)) :pattern ((select %s %s)) :qid mapsUnchanged))",
+			r, r, entry.alloc, c.cur.H(md), r, entry.H(md), r, c.cur.H(mv), r, entry.H(mv), r, c.cur.H(md), r, c.cur.H(mv), r))
+	case "heapOf":
+		h := n.Args[0].Name
+		if _, ok := e.heapSort[h]; !ok {
+			// declare pointer heaps on demand by their canonical name
+			if strings.HasPrefix(h, "P$") {
+				t := c.resolveType(h[2:])
+				e.ptrHeap(t)
+			}
+		}
+		if _, ok := e.heapSort[h]; !ok {
+			fail("spec: unknown heap %s", h)
+		}
+		return SV{T: c.cur.H(h), Sort: e.heapSort[h]}
 	case "heapEq":
 		// heapEq("F$core_Table$Data"): the named heap is unchanged since entry
 		h := n.Args[0].Name
